@@ -56,24 +56,37 @@ _CACHE: dict = {}
 @st.composite
 def st_case(draw):
     fam = draw(st.sampled_from(["Z2x2", "Z2x2", "Cubic1"]))
-    spec = draw(zp.st_z2x2(delta_range=(0.04, 0.13))) if fam == "Z2x2" else draw(zp.st_cubic1(delta_range=(0.1, 0.5), min_alpha=2e-3))
+    spec = draw(zp.st_z2x2(delta_range=(0.04, 0.13))) if fam == "Z2x2" else draw(zp.st_cubic1_margin(min_alpha=2e-3))
     spec = zp.with_guess(spec, draw(zp.st_guess()))
     u = draw(st.one_of(st.sampled_from([-2.0, -1.0, 1.0, 2.0, -2.0, 2.0]),
                        st.floats(-2.0, 2.0).map(lambda x: round(x, 2))))
     setting = draw(st.sampled_from(["default", "default", "tight"]))
-    return {"kind": "units", "spec": spec, "u": u, "setting": setting}
+    case = {"kind": "units", "spec": spec, "u": u, "setting": setting}
+    # the model's own unit system: "every model" includes models written in other units than GeV
+    b = draw(st.sampled_from([0.0, 0.0, 0.0, -2.0, 2.0]))
+    if b:
+        case["b"] = b
+    if draw(st.sampled_from([False, False, True])):
+        parts = [{"name": "top", "y": round(draw(st.floats(0.7, 1.1)), 3), "stat": "Fermion", "dof": 12,
+                  "field": 0, "m0sq": 0.0}]
+        case["spec"] = dict(spec, particles=parts)
+        case["coll"] = {"N_stored": draw(st.sampled_from([5, 7])),
+                        "gammas": [round(10 ** draw(st.floats(-0.5, 0.5)), 3)],
+                        "basis": draw(st.sampled_from(["Chebyshev", "Cardinal"]))}
+    return case
 
 
 def strategy(tier):
     return st_case()
 
 
-def _run(spec, cfg, vw=None):
-    what = ["hydro", "lte", "solve"] + ([f"boundaries:{vw!r}"] if vw is not None else [])
-    key = canonical([spec, cfg, what])
+def _run(spec, cfg, coll=None, coll_dir=None):
+    what = ["hydro", "lte", "solve"]
+    key = canonical([spec, cfg, what, coll])
     if key not in _CACHE:
-        _CACHE[key] = e2e.fresh_run({"spec": spec, "cfg": cfg, "what": what, "settings": WALL,
-                                     "profiles": False})
+        settings = dict(WALL, offEq=bool(coll))
+        _CACHE[key] = e2e.fresh_run({"spec": spec, "cfg": cfg, "what": what, "settings": settings,
+                                     "profiles": False, "coll_dir": coll_dir})
     return _CACHE[key]
 
 
@@ -82,10 +95,32 @@ def _num(x):
 
 
 def check_case(case) -> Verdict:
+    import shutil
+    import tempfile
+
+    coll = case.get("coll")
+    coll_dir = None
+    try:
+        if coll:
+            from vlib import collfiles
+
+            coll_dir = tempfile.mkdtemp(prefix="verif_c07_coll_")
+            names = [pt["name"] for pt in case["spec"]["particles"]]
+            collfiles.write_relaxation_directory(coll_dir, names, int(coll["N_stored"]),
+                                                 [float(g) for g in coll["gammas"]], basis=coll["basis"])
+        return _check_case(case, coll, coll_dir)
+    finally:
+        if coll_dir:
+            shutil.rmtree(coll_dir, ignore_errors=True)
+
+
+def _check_case(case, coll, coll_dir) -> Verdict:
     v = Verdict()
-    spec1 = dict(case["spec"], units=1.0)
+    base = 10.0 ** float(case.get("b", 0.0))
+    spec1 = dict(case["spec"], units=base)
     s = 10.0 ** float(case["u"])
-    specs = dict(case["spec"], units=s)
+    specs = dict(case["spec"], units=base * s)
+    v.label(f"base_units:1e{int(case.get('b', 0))}", "offEq" if coll else "LTE")
     setting = case["setting"]
     other = "tight" if setting == "default" else "default"
     cfg, cfg_o = SETTINGS[setting], SETTINGS[other]
@@ -100,14 +135,14 @@ def check_case(case) -> Verdict:
     v.label(f"family:{fam}", f"ubin:{ubin}", f"setting:{setting}", "strength:weak" if weak else "strength:normal",
             "guess:rough" if case["spec"].get("guess") else "guess:exact",
             f"fscale_factor:{case['spec'].get('fscale_factor', 1.0)}")
-    A = _run(spec1, cfg)
+    A = _run(spec1, cfg, coll, coll_dir)
     if A.get("timeout"):
         v.discarded("timeout (inconclusive)")
         return v
     if "setup_error" in A:
         v.discarded("s=1 setup failed")
         return v
-    B = _run(specs, cfg)
+    B = _run(specs, cfg, coll, coll_dir)
     v.checked("setup")
     if B.get("timeout") or A.get("timeout"):
         v.discarded("timeout (inconclusive)")
@@ -115,7 +150,7 @@ def check_case(case) -> Verdict:
     if "setup_error" in B:
         v.fail("setup", cls, f"set-up succeeds in units s=1 but fails for s={s:g}: {B['setup_error'][:200]}")
         return v
-    C = _run(spec1, cfg_o)
+    C = _run(spec1, cfg_o, coll, coll_dir)
     if C.get("timeout"):
         v.discarded("timeout (inconclusive)")
         return v
@@ -160,9 +195,27 @@ def check_case(case) -> Verdict:
         # whether the tracer stops at a second-order / transcritical end (where a minimum continues to
         # exist on a continuous branch) is not an output the property lists; recorded as a label
         v.label("end_of_phase_flags_differ")
+    fd, vj = ha.get("fastestDeflag"), ha.get("vJ")
+    if isinstance(fd, float) and isinstance(vj, float) and fd < vj * (1 - 1e-6):
+        # the deflagration window is cut by the end of a tabulated phase: the phases do not exist
+        # with a margin over the range the solver needs -> outside the property's domain
+        v.label("window_cut_by_phase_end")
+        v.discarded("hydrodynamic window cut by the end of a phase (outside the property's domain)")
+        return v
+    # traced phase locations at Tn scale like s (tracing tolerance relative to max(|phi|, T))
+    size = max(ha["Tnucl"], max(abs(x) for x in ha["tracedHighAtTn"] + ha["tracedLowAtTn"] if x == x))
+    for k in ("tracedHighAtTn", "tracedLowAtTn"):
+        for i, (a, b, c) in enumerate(zip(ha[k], hb[k], hc[k])):
+            if a == a and b == b:
+                cmp("thermo", f"{k}[{i}]", a, b, c if c == c else None, power=1, extra_abs=K * tolTrace * size)
+    # the minima located by validatePhaseInput (scipy default tolerances) are compared separately
+    v.checked("phases-at-Tn")
+    nviol = 0  # phase-location mismatches (either kind) do not stop the comparison of later stages
     for k in ("phase1", "phase2"):
         for i, (a, b, c) in enumerate(zip(ha[k], hb[k], hc[k])):
-            cmp("thermo", f"{k}[{i}]", a, b, c, power=1, extra_abs=K * 1e-5 * ha["Tnucl"])
+            cmp("phases-at-Tn", f"{k}[{i}]", a, b, c, power=1, extra_abs=K * 1e-5 * size)
+    pat = v.violations[nviol:]
+    del v.violations[nviol:]
     if not v.violations:
         # ---- hydrodynamics
         v.checked("hydro")
@@ -220,5 +273,6 @@ def check_case(case) -> Verdict:
                     # T+- depend on v: tolerance from the velocity difference actually observed
                     if abs(ta - tb) > 5.0 * dv + 1e-5:
                         v.fail("wall", cls, f"{k2}/Tn differs: {tb} vs {ta}")
+    v.violations.extend(pat)
     v.nontrivial = bool(abs(case["u"]) >= 0.5 and ok_ref and not v.discard)
     return v
